@@ -88,6 +88,7 @@ Rep(v, n, r) == <<v, n, 0, r>>
 
 RECURSIVE BitLen(_)
 BitLen(fs) == IF fs = <<>> THEN 0 ELSE Head(fs)[2] * Head(fs)[4] + BitLen(Tail(fs))
+\* (a field with msb = 2 is a run of rep bytes given in closed form by the generator)
 
 RECURSIVE Flat(_)
 Flat(ss) == IF ss = <<>> THEN <<>> ELSE Head(ss) \o Flat(Tail(ss))
